@@ -1,36 +1,114 @@
 /-
-C11 driver. Payload: `(hist (tbl (row v v v)…) (steps (st <stmt> ())…))` — statements of the fragment of
-Gms/Model/Prepared.lean without placeholders, issued against one table from two sessions.
-implModelObs: every query goes through a *fresh* cache cell (`Gms.QueryCache.iters {}`), as the engine
-plans afresh for every execution; specObs: the reference result on the state current at that step.
+C11 driver. Payloads:
+
+`(hist (tbl (row v v v)…) (steps <step>…))` with `<step>` = `(s <session> <stmt>)` — a statement of the fragment of
+Gms/Model/Prepared.lean without placeholders — or `(tx <session> begin|commit|rollback|ac0|ac1)`; the steps are issued
+against one table from two sessions.
+implModelObs: the session bookkeeping of the Go code (`Gms.TxSnapshot.runImpl`: marks, the working copy a finished
+transaction leaves behind, reset at the next statement), every query through a *fresh* cache cell
+(`Gms.QueryCache.iters {}`), as the engine plans afresh for every execution; specObs: `Gms.TxSnapshot.runSpec` — the
+reference result on the data the session is entitled to see at that step (the current data outside a transaction).
+
+`(trig <kind> (log i…) (body <setk> <mark> <operand>) (rows (r id k)…))`: one multi-row statement firing a trigger
+whose body reads and writes the side table; implModelObs `Gms.TrigCache.implStmt` (one cell per subquery node for
+the whole statement, subqueries marked volatile), specObs `Gms.TrigCache.specRows`.
 -/
 import Gms.Driver.PreparedProto
 import Gms.Model.QueryCache
+import Gms.Model.TxSnapshot
+import Gms.Model.TrigCache
 open Gms.Proto Gms.Sql Gms.Prepared Gms.PreparedProto Gms.QueryCache
 
-/-- Impl model of a history: writes change the table, a SELECT is planned with a fresh cell that
-is iterated once to the end -/
-def implAll : List Stmt → Table → List Outcome
-  | [], _ => []
-  | st :: rest, db =>
-    match run [] st db with
-    | (.rows rs, db') => .rows ((iters {} rs [none]).1.headD []) :: implAll rest db'
-    | (o, db') => o :: implAll rest db'
+/-- Impl model of one statement on the data the session sees: a SELECT is planned with a fresh cell that is
+iterated once to the end -/
+def implStmt (st : Stmt) (db : Table) : Outcome × Table :=
+  match run [] st db with
+  | (.rows rs, db') => (.rows ((iters {} rs [none]).1.headD []), db')
+  | x => x
 
-def specAll : List Stmt → Table → List Outcome
-  | [], _ => []
-  | st :: rest, db => (run [] st db).1 :: specAll rest (run [] st db).2
+def specStmt (st : Stmt) (db : Table) : Outcome × Table := run [] st db
+
+def txOp? (f : Stmt → Table → Outcome × Table) : Sexp → Option (Nat × Gms.TxSnapshot.Op Table Outcome)
+  | .list [.atom "s", i, st] => do pure ((← i.nat?), .stmt (f (← stmt? st)))
+  | .list (.atom "tx" :: i :: .atom "begin" :: _) => do pure ((← i.nat?), .start)
+  | .list (.atom "tx" :: i :: .atom "commit" :: _) => do pure ((← i.nat?), .commit)
+  | .list (.atom "tx" :: i :: .atom "rollback" :: _) => do pure ((← i.nat?), .rollback)
+  | .list (.atom "tx" :: i :: .atom "ac0" :: _) => do pure ((← i.nat?), .setAC false)
+  | .list (.atom "tx" :: i :: .atom "ac1" :: _) => do pure ((← i.nat?), .setAC true)
+  | _ => none
+
+def showObs : Option Outcome → String
+  | none => "tx-ok"
+  | some o => showOutcome o
+
+/-! trigger cases -/
+open Gms.TrigCache in
+def operand? : Sexp → Option Operand
+  | .atom "newid" => some .newId
+  | .atom "newk" => some .newK
+  | .list [.atom "c", i] => i.int?.map .const
+  | _ => none
+
+open Gms.TrigCache in
+def agg? : Sexp → Option Agg
+  | .atom "count" => some .count
+  | .atom "max" => some .max
+  | .atom "sum" => some .sum
+  | _ => none
+
+open Gms.TrigCache in
+def subq? : Sexp → Option SubQ
+  | .list [.atom "sq", a, .atom "none"] => do pure { agg := (← agg? a), below := none }
+  | .list [.atom "sq", a, o] => do pure { agg := (← agg? a), below := some (← operand? o) }
+  | _ => none
+
+open Gms.TrigCache in
+def test? : Sexp → Option Test
+  | .list [.atom "inlog", o] => (operand? o).map .inLog
+  | .list [.atom "subgt", q, c] => do pure (.subGt (← subq? q) (← c.int?))
+  | .list [.atom "exists", o] => (operand? o).map .existsEq
+  | _ => none
+
+open Gms.TrigCache in
+def body? : Sexp → Option Body
+  | .list [.atom "body", sk, mk, lg] => do
+    let sk ← (match sk with | .atom "none" => some none | s => (subq? s).map some)
+    let mk ← (match mk with | .atom "none" => some none | s => (test? s).map some)
+    pure { setK := sk, mark := mk, logs := (← operand? lg) }
+  | _ => none
+
+open Gms.TrigCache in
+def newRow? : Sexp → Option NewRow
+  | .list [.atom "r", i, k] => do pure { id := (← i.int?), k := (← k.int?) }
+  | _ => none
+
+def insertInt (x : Int) : List Int → List Int
+  | [] => [x]
+  | y :: ys => if x ≤ y then x :: y :: ys else y :: insertInt x ys
+
+def sortInts (xs : List Int) : List Int := xs.foldr insertInt []
+
+open Gms.TrigCache in
+def showTrig (r : List NewRow × Log) : String :=
+  let rows := r.1.map fun x => "(" ++ toString x.id ++ " " ++ toString x.k ++ " " ++ (if x.seen then "1" else "0") ++ ")"
+  "t: " ++ " ".intercalate rows ++ " | log: " ++ " ".intercalate ((sortInts r.2).map toString)
 
 def handle (p : List Sexp) : String :=
   match p with
   | [.list [.atom "hist", .list (.atom "tbl" :: rows), .list (.atom "steps" :: steps)]] =>
-    match rows.mapM row?, steps.mapM step? with
-    | some rows, some steps =>
-      let sts := steps.map (·.1)
-      let impl := " ; ".intercalate ((implAll sts rows).map showOutcome)
-      let spec := " ; ".intercalate ((specAll sts rows).map showOutcome)
+    match rows.mapM row?, steps.mapM (txOp? implStmt), steps.mapM (txOp? specStmt) with
+    | some rows, some isteps, some ssteps =>
+      let impl := " ; ".intercalate ((Gms.TxSnapshot.runImpl isteps rows (fun _ => {})).map showObs)
+      let spec := " ; ".intercalate ((Gms.TxSnapshot.runSpec ssteps rows (fun _ => {})).map showObs)
       if impl == spec then answer impl else answer impl spec
-    | _, _ => answer "bad-case"
+    | _, _, _ => answer "bad-case"
+  | [.list [.atom "trig", _, .list (.atom "log" :: log), body, .list (.atom "rows" :: rows)]] =>
+    match log.mapM Sexp.int?, body? body, rows.mapM newRow? with
+    | some log, some body, some rows =>
+      let impl := showTrig (Gms.TrigCache.implStmt body log rows)
+      let spec := showTrig (Gms.TrigCache.specRows body log rows)
+      if impl == spec then answer impl else answer impl spec
+    | _, _, _ => answer "bad-case"
   -- a reset statement of the harness that failed on the real engine (the model has no such failure)
   | [.list (.atom "setup" :: _)] => answer "setup-ok"
   | _ => answer "bad-case"
